@@ -44,7 +44,7 @@ def rename(x, m):
             if k == "try":
                 return ["try", rename(x[1], m), [[m.get(h[0], h[0]) if h[0] else None, h[1], rename(h[2], m)] for h in x[2]], rename(x[3], m), rename(x[4], m)]
             if k == "with":
-                return ["with", [[m.get(g[0], g[0]) if g[0] else None, g[1], g[2], g[3]] for g in x[1]], rename(x[2], m)]
+                return ["with", [[m.get(g[0], g[0]) if g[0] else None] + list(g[1:]) for g in x[1]], rename(x[2], m)]
             if k in ("lit", "eff", "raise"):
                 return x
         return [rename(y, m) for y in x]
